@@ -7,7 +7,7 @@ use dicom_ul::association::{AsyncPDataWriter, PDataWriter};
 use std::io::Write;
 use tokio::io::AsyncWrite;
 
-/// transport whose behaviour per call is chosen by the solver: Ready(Ok(k)) with 1 <= k <= len, or Pending (at most `pend` times)
+/// transport whose behaviour per call is chosen by the solver: Ready(Ok(len)), Ready(Ok(1)), or Pending (at most `pend` times)
 struct T {
     buf: [u8; 64],
     n: usize,
@@ -21,11 +21,16 @@ impl AsyncWrite for T {
             self.pend_left -= 1;
             return Poll::Pending;
         }
-        let k: usize = kani::any();
-        kani::assume(k >= 1 && k <= data.len());
+        // partial write: the transport takes either everything or just the first byte (two extremes of "1 <= k <= len")
+        let k: usize = if kani::any() { data.len() } else { 1 };
+        kani::assume(data.len() >= 1);
         let at = self.n;
         if at + k > 64 { panic!("transport buffer too small"); }
-        self.buf[at..at + k].copy_from_slice(&data[..k]);
+        let mut i = 0;
+        while i < data.len() {
+            if i < k { self.buf[at + i] = data[i]; }
+            i += 1;
+        }
         self.n += k;
         Poll::Ready(Ok(k))
     }
